@@ -73,6 +73,7 @@ type vfFacts struct {
 	HasReq       bool
 	CertExpired  bool // NotAfter before now
 	UntilFuture  bool // cfg.Validity.Until after now
+	UntilBetween bool // cfg.Validity.Until after the certificate's notAfter but not after now
 	HashState    int  // 0 none stored, 1 equal, 2 different
 	ArtFetchFail bool
 }
@@ -108,7 +109,10 @@ func vfRun(f vfFacts) (got bool, panicked any) {
 	now := time.Now()
 	base := now.Add(-24 * time.Hour)
 	cfg := &config.CertificateContent{Alias: "sub", Issuer: "iss", SerialNumber: 7}
-	cfg.Validity.Until = now.Add(-time.Hour)
+	cfg.Validity.Until = now.Add(-2 * time.Hour)
+	if f.UntilBetween {
+		cfg.Validity.Until = now.Add(-30 * time.Minute)
+	}
 	if f.UntilFuture {
 		cfg.Validity.Until = now.Add(1000 * time.Hour)
 	}
@@ -222,10 +226,10 @@ func TestVerifReplayNeedsUpdate(t *testing.T) {
 func TestVerifBoundedNeedsUpdate(t *testing.T) {
 	n := 0
 	for s := 0; s < 32; s++ {
-		for bits := 0; bits < 1<<8; bits++ {
+		for bits := 0; bits < 1<<9; bits++ {
 			for hs := 0; hs < 3; hs++ {
 				f := vfFacts{Strat: uint8(s), IssuerKnown: bits&1 != 0, IssuerNewer: bits&2 != 0, ConfigNewer: bits&4 != 0, HasCert: bits&8 != 0,
-					HasKey: bits&16 != 0, HasReq: bits&32 != 0, CertExpired: bits&64 != 0, UntilFuture: bits&128 != 0, HashState: hs}
+					HasKey: bits&16 != 0, HasReq: bits&32 != 0, CertExpired: bits&64 != 0, UntilFuture: bits&128 != 0, UntilBetween: bits&256 != 0, HashState: hs}
 				got, p := vfRun(f)
 				n++
 				if p != nil {
